@@ -38,12 +38,12 @@ def seq(ops, sz0, hdr0=None, timeout=300, tier="quick", sizes=None, nmax=8):
 
 def queries(tier):
     qs = []
-    caps = [8, 24, 40] if tier == "quick" else [1, 8, 24, 33, 40, 64]
+    caps = [8, 24] if tier == "quick" else [1, 8, 24, 33, 40, 64]
     for op, code in OPS.items():
         for cap in caps:
             if op == "trim_u32" and cap < 4:
                 continue
-            if tier == "quick" and op in ("pullup",) and cap > 24:
+            if tier == "quick" and op in ("pullup",) and cap > 8:
                 continue
             qs.append(Query("chunk-%s-cap%d" % (op, cap), "c17/chunk_step.c", env=ENV,
                             defs={"OP": code, "CAP": cap}, unwind=max(cap + 24, 70), timeout=600 if tier != "quick" else 300,
